@@ -246,10 +246,23 @@ def check_euler(t, c, cls):
         Rm = do(t, "C10|%s|%s" % (name, cls), case, fn)
         if Rm is None:
             continue
+        if isinstance(Rm, np.ndarray) and type(Rm) is np.ndarray and Rm.flags.writeable and name.startswith(("rot_seq", "rotation")):
+            # the caller owns the matrix it was given: it is used and then overwritten (a later call must not see that)
+            got = Rm.copy()
+            Rm[...] = np.array([[0.0, 0.6, 0.8], [1.0, 0.0, 0.0], [0.0, 0.8, -0.6]])
+            Rm = got
         d = maxdiff(np.asarray(Rm, dtype=float), R)
         t.resid("euler->R", d)
         if not d <= TOL:
             t.fail("C10|%s|matrix-not-ordered-product|%s" % (name, cls), dict(case, got=np.asarray(Rm), want=R))
+    if len(axes) == 1 and not getattr(t, "null_rotations_scribbled", False):
+        # null elementary rotations, handed out and then overwritten by the caller, once per process: sequences with a zero angle
+        # are built from them afterwards (every sequence case below that contains the half-angle pair (1, 0))
+        t.null_rotations_scribbled = True
+        for ax in "xyz":
+            for Z in (rotation(ax, 0.0), rotation(ax, 360.0, degrees=True), rot_seq(ax, [0.0])):
+                if isinstance(Z, np.ndarray) and Z.flags.writeable:
+                    Z[...] = np.array([[0.0, 0.6, 0.8], [1.0, 0.0, 0.0], [0.0, 0.8, -0.6]])
     t.keys.add(("euler", seq, tuple(map(tuple, hs))))
 
 
